@@ -1,7 +1,7 @@
 SPECIFICATION Spec
-CONSTANTS KeyedBy = "short" MaxHist = 3
+CONSTANTS KeyedBy = "short" MaxHist = 3 GraphLen = 0 IndexMemo = "none"
 INVARIANT TypeOK
-INVARIANT FreshIsOwn
+INVARIANT FreshIsOwnNames
 INVARIANT HistoryFree
 PROPERTY Monotone
 CHECK_DEADLOCK FALSE
